@@ -101,6 +101,24 @@ func (t *Tape) Seed64() uint64 {
 	return a<<30 | b
 }
 
+// Thorough is set for the thorough tier (and when replaying a tape found there):
+// half of the runs then use the deeper bounds (longer histories, more tasks).
+var Thorough bool
+
+// Bound returns the bound of a history or world: quick normally; in the thorough
+// tier a per-run coin decides between quick and deep.
+func (t *Tape) Bound(quick, deep int) int {
+	if !Thorough {
+		return quick
+	}
+
+	if t.Draw(2) == 1 {
+		return deep
+	}
+
+	return quick
+}
+
 // Pos is the number of draws made so far.
 func (t *Tape) Pos() int { return t.pos }
 
